@@ -83,13 +83,22 @@ Proof.
       rewrite <- !app_assoc; auto.
 Qed.
 
+(* the `continue` flag of the simple translation: at the level of the main loop *)
+Definition rt (ml : bool) (ld : nat) : bool := ml && Nat.eqb ld 1.
+
+Lemma rt_S ml ld : implb ml (Nat.leb 1 ld) = true -> rt ml (S ld) = false.
+Proof. unfold rt. destruct ml; [|reflexivity]. destruct ld as [|ld']; [discriminate|reflexivity]. Qed.
+Lemma ml_S ml ld : implb ml (Nat.leb 1 ld) = true -> implb ml (Nat.leb 1 (S ld)) = true.
+Proof. destruct ml; reflexivity. Qed.
+
 Lemma tr_block_simple ml : forall f gf glob top lm ld s D L ps D' ns s',
+  implb ml (Nat.leb 1 ld) = true ->
   glob = top && negb lm -> implb lm (no_top_tuple ps) = true ->
   g_block gf top D L ps = Some D' -> Dec D L s ->
   tr_block ml f glob ld s ps = Some (ns, s') ->
-  ns = fst (trm top lm D ps) /\ globals s' = globals s ++ snd (trm top lm D ps) /\ Dec D' L s'.
+  ns = fst (trm (rt ml ld) top lm D ps) /\ globals s' = globals s ++ snd (trm (rt ml ld) top lm D ps) /\ Dec D' L s'.
 Proof.
-  induction f as [|f IH]; intros gf glob top lm ld s D L ps D' ns s' HGL Htup HG HD H; [discriminate|].
+  induction f as [|f IH]; intros gf glob top lm ld s D L ps D' ns s' Hml HGL Htup HG HD H; [discriminate|].
   destruct ps as [|p rest].
   - inversion H; subst. destruct gf; [discriminate|]. rewrite g_block_nil in HG. inversion HG; subst.
     rewrite trm_nil. cbn. rewrite app_nil_r. auto.
@@ -98,14 +107,14 @@ Proof.
     { destruct lm; [|reflexivity]. cbn [implb no_top_tuple forallb] in Htup |- *.
       apply andb_true_iff in Htup as [_ Htup]. exact Htup. }
     assert (K : forall ns0 s1 nsp gsp,
-               trm top lm D (p :: rest) = (nsp ++ fst (trm top lm D1 rest), gsp ++ snd (trm top lm D1 rest)) ->
+               trm (rt ml ld) top lm D (p :: rest) = (nsp ++ fst (trm (rt ml ld) top lm D1 rest), gsp ++ snd (trm (rt ml ld) top lm D1 rest)) ->
                match tr_block ml f glob ld s1 rest with
                | None => None | Some (ms, s2) => Some (ns0 ++ ms, s2) end = Some (ns, s') ->
                ns0 = nsp -> globals s1 = globals s ++ gsp -> Dec D1 L s1 ->
-               ns = fst (trm top lm D (p :: rest)) /\ globals s' = globals s ++ snd (trm top lm D (p :: rest)) /\ Dec D' L s').
+               ns = fst (trm (rt ml ld) top lm D (p :: rest)) /\ globals s' = globals s ++ snd (trm (rt ml ld) top lm D (p :: rest)) /\ Dec D' L s').
     { intros ns0 s1 nsp gsp HT Hr -> Hg Hd.
       destruct (tr_block ml f glob ld s1 rest) as [[ms s2]|] eqn:E; [|discriminate].
-      inversion Hr; subst. destruct (IH _ _ top lm _ _ _ _ _ _ _ _ eq_refl Htr HG Hd E) as (I1 & I2 & I3).
+      inversion Hr; subst. destruct (IH _ _ top lm _ _ _ _ _ _ _ _ Hml eq_refl Htr HG Hd E) as (I1 & I2 & I3).
       rewrite HT. cbn [fst snd]. rewrite I1, I2, Hg, app_assoc. auto. }
     destruct p; cbn [tr_block] in H.
     + (* PAssign *)
@@ -116,7 +125,7 @@ Proof.
       * destruct (ty_eqb t (a_ty e)); [|discriminate]. inversion HS; subst D1.
         match type of H with context [tmem x ?l] => replace (tmem x l) with true in H by (symmetry; eapply tlookup_dom_true; eauto) end.
         eapply (K _ _ [NAssign x (XE (a_id e))] []); [|exact H|reflexivity|cbn; rewrite app_nil_r; reflexivity|exact HD].
-        rewrite (trm_cons_old top lm D x e rest _ Hl), tr1_unfold. reflexivity.
+        rewrite (trm_cons_old (rt ml ld) top lm D x e rest _ Hl), tr1_unfold. reflexivity.
       * destruct top; [|discriminate]. inversion HS; subst D1.
         match type of H with context [tmem x ?l] => replace (tmem x l) with false in H by (symmetry; eapply tlookup_dom_false; eauto) end.
         destruct lm; cbn [andb negb] in HGL; subst glob.
@@ -124,12 +133,12 @@ Proof.
            assert (HD1 : Dec (D ++ [(x, a_ty e)]) L (declare x (with_ty x (a_ty e) s))).
            { intro y. cbn [declare with_ty declared]. rewrite map_app, !tmem_app, (HD y). cbn [map fst].
              apply bool3. }
-           pose proof (trm_cons_newl D x e rest Hl) as HT.
+           pose proof (trm_cons_newl (rt ml ld) D x e rest Hl) as HT.
            eapply (K _ _ [NDecl x (a_ty e) (XE (a_id e)) false] []); [exact HT|exact H|reflexivity|cbn; rewrite app_nil_r; reflexivity|apply HD1].
         -- assert (HD1 : forall g, Dec (D ++ [(x, a_ty e)]) L (add_global g (declare x (with_ty x (a_ty e) s)))).
            { intros g y. cbn [add_global declare with_ty declared]. rewrite map_app, !tmem_app, (HD y). cbn [map fst].
              apply bool3. }
-           pose proof (trm_cons_new D x e rest Hl) as HT.
+           pose proof (trm_cons_new (rt ml ld) D x e rest Hl) as HT.
            destruct (closed_const e).
            ++ eapply (K _ _ [] [_]); [exact HT|exact H|reflexivity|reflexivity|apply HD1].
            ++ eapply (K _ _ [NAssign x (XE (a_id e))] [_]); [exact HT|exact H|reflexivity|reflexivity|apply HD1].
@@ -139,7 +148,7 @@ Proof.
       destruct (tlookup x D) as [t|] eqn:Hl; [|discriminate].
       destruct (ty_eqb t t_after); [|discriminate]. inversion HS; subst D1.
       eapply (K _ _ [NAssign x (XAug x op (a_id e))] []); [|exact H|reflexivity|cbn; rewrite app_nil_r; reflexivity|exact HD].
-      rewrite (trm_cons_other top lm D (PAug x op e t_after) rest I), tr1_unfold. reflexivity.
+      rewrite (trm_cons_other (rt ml ld) top lm D (PAug x op e t_after) rest I), tr1_unfold. reflexivity.
     + (* PTuple: declaration of new globals *)
       cbn [g_step] in HS. destruct (top && tuple_decl_ok D L xs es) eqn:Hk; [|discriminate].
       inversion HS; subst D1. apply andb_true_iff in Hk as [-> Hk].
@@ -154,7 +163,7 @@ Proof.
       destruct (tuple_global_spec xs es (set_tys xs es s) Hlen) as (T1 & T2 & T3).
       destruct (set_tys_same xs es s) as [Y1 Y2]. rewrite Y1 in T2. rewrite Y2 in T3.
       rewrite E' in T1, T2, T3. cbn [fst snd] in T1, T2, T3.
-      eapply (K _ _ (tup_nodes xs es) (tup_globals xs es)); [exact (trm_cons_tuple D L xs es rest Hk)|exact H|exact T1|exact T3|].
+      eapply (K _ _ (tup_nodes xs es) (tup_globals xs es)); [exact (trm_cons_tuple (rt ml ld) D L xs es rest Hk)|exact H|exact T1|exact T3|].
       intro y. rewrite T2, map_app, map_fst_combine by (rewrite map_length; exact Hlen).
       rewrite !tmem_app, (HD y). apply bool3.
     + (* PIf *)
@@ -167,12 +176,12 @@ Proof.
       { intros cb Hin. rewrite forallb_forall in H2. specialize (H2 _ Hin).
         apply andb_true_iff in H2 as [_ H2]. apply nested_true in H2. exact H2. }
       clear H2.
-      assert (HT : trm top lm D (PIf c body elifs els :: rest) =
-                   ([NIf ((a_id c, trn body) :: trnb elifs) (trn els)] ++ fst (trm top lm D rest), [] ++ snd (trm top lm D rest))).
-      { rewrite (trm_cons_other top lm D (PIf c body elifs els) rest I), tr1_unfold. reflexivity. }
+      assert (HT : trm (rt ml ld) top lm D (PIf c body elifs els :: rest) =
+                   ([NIf ((a_id c, trn (rt ml ld) body) :: trnb (rt ml ld) elifs) (trn (rt ml ld) els)] ++ fst (trm (rt ml ld) top lm D rest), [] ++ snd (trm (rt ml ld) top lm D rest))).
+      { rewrite (trm_cons_other (rt ml ld) top lm D (PIf c body elifs els) rest I), tr1_unfold. reflexivity. }
       head_opt H a0 a1 E.
       destruct (tr_block ml f false ld (child_of s (globals s)) body) as [[ns1 cs1]|] eqn:E1; [|discriminate].
-      destruct (IH _ false false false _ _ _ _ _ _ _ _ eq_refl eq_refl H1 (Dec_child D L s (globals s) HD) E1) as (I1 & I2 & I3).
+      destruct (IH _ false false false _ _ _ _ _ _ _ _ Hml eq_refl eq_refl H1 (Dec_child D L s (globals s) HD) E1) as (I1 & I2 & I3).
       cbn [trm fst snd child_of globals] in I1, I2. rewrite app_nil_r in I2.
       match type of E with
       | context [?B (globals cs1) elifs] => set (BR := B) in *
@@ -180,14 +189,14 @@ Proof.
       assert (HB : forall l gl brs gl', gl = globals s ->
                    (forall cb, In cb l -> g_block gf' false D L (snd cb) = Some D) ->
                    BR gl l = Some (brs, gl') ->
-                   gl' = globals s /\ map (fun x : Z * list cnode * tst => (fst (fst x), snd (fst x))) brs = trnb l /\
+                   gl' = globals s /\ map (fun x : Z * list cnode * tst => (fst (fst x), snd (fst x))) brs = trnb (rt ml ld) l /\
                    Forall (fun x : Z * list cnode * tst => Dec D L (snd x)) brs).
       { induction l as [|[c' b] r IHl]; intros gl brs gl' Hgl Hgd Hb; cbn in Hb.
         - inversion Hb; subst. auto.
         - destruct (tr_block ml f false ld (child_of s gl) b) as [[nsb cs]|] eqn:Eb; [|discriminate].
           destruct (BR (globals cs) r) as [[rest' gl'']|] eqn:Er; [|discriminate].
           inversion Hb; subst brs gl''. clear Hb.
-          destruct (IH _ false false false _ _ _ _ _ _ _ _ eq_refl eq_refl (Hgd (c', b) (or_introl eq_refl)) (Dec_child D L s gl HD) Eb) as (J1 & J2 & J3).
+          destruct (IH _ false false false _ _ _ _ _ _ _ _ Hml eq_refl eq_refl (Hgd (c', b) (or_introl eq_refl)) (Dec_child D L s gl HD) Eb) as (J1 & J2 & J3).
           cbn [trm fst snd child_of globals] in J1, J2. rewrite app_nil_r in J2.
           destruct (IHl (globals cs) rest' gl') as (K1 & K2 & K3); [congruence|intros; apply Hgd; right; assumption|exact Er|].
           split; [exact K1|]. split; [cbn; rewrite K2, J1; reflexivity|constructor; assumption]. }
@@ -199,7 +208,7 @@ Proof.
       { intro l. apply map_ext. intros [[c0 n0] t0]. cbn. rewrite map_rewrite_if_nil. reflexivity. }
       assert (FIN : forall (elsn : list cnode) (ctxs : list tst) (COL : list tst -> list ident -> list (ident * ty)),
                  (forall cl seen, Forall (Dec D L) cl -> COL cl seen = @nil (ident * ty)) ->
-                 Forall (Dec D L) ctxs -> elsn = trn els ->
+                 Forall (Dec D L) ctxs -> elsn = trn (rt ml ld) els ->
                  (let '(decls, s3) :=
                     promo_decls glob (COL ctxs [])
                       (fold_left (fun acc xt => with_ty (fst xt) (snd xt) acc) (COL ctxs [])
@@ -207,8 +216,8 @@ Proof.
                   Some (decls ++ [NIf (map (fun x : Z * list cnode * tst => (fst (fst x), map (rewrite_if (map fst (COL ctxs []))) (snd (fst x))))
                                          ((a_id c, ns1, cs1) :: brs0))
                                       (map (rewrite_if (map fst (COL ctxs []))) elsn)], s3)) = Some (a0, a1) ->
-                 ns = fst (trm top lm D (PIf c body elifs els :: rest)) /\
-                   globals s' = globals s ++ snd (trm top lm D (PIf c body elifs els :: rest)) /\ Dec D' L s').
+                 ns = fst (trm (rt ml ld) top lm D (PIf c body elifs els :: rest)) /\
+                   globals s' = globals s ++ snd (trm (rt ml ld) top lm D (PIf c body elifs els :: rest)) /\ Dec D' L s').
       { intros elsn ctxs COL HCOL HF -> HE. rewrite (HCOL ctxs [] HF) in HE.
         cbn [promo_decls fold_left map] in HE. rewrite RW in HE. rewrite !map_rewrite_if_nil in HE. cbn [map fst snd] in HE.
         rewrite B2, I1 in HE. inversion HE; subst a0 a1. clear HE.
@@ -230,7 +239,7 @@ Proof.
       * eapply (FIN [] (map (fun x : Z * list cnode * tst => snd x) ((a_id c, ns1, cs1) :: brs0) ++ []) _ HCOLg); [|reflexivity|exact E].
         apply Forall_app. split; [exact B3'|constructor].
       * destruct (tr_block ml f false ld (child_of s gl1) (e0 :: els')) as [[nse cse]|] eqn:Ee; [|discriminate].
-        destruct (IH _ false false false _ _ _ _ _ _ _ _ eq_refl eq_refl H3 (Dec_child D L s gl1 HD) Ee) as (J1 & J2 & J3).
+        destruct (IH _ false false false _ _ _ _ _ _ _ _ Hml eq_refl eq_refl H3 (Dec_child D L s gl1 HD) Ee) as (J1 & J2 & J3).
         cbn [trm fst snd child_of globals] in J1, J2. rewrite app_nil_r in J2.
         cbn [globals] in E. rewrite J2 in E.
         eapply (FIN nse (map (fun x : Z * list cnode * tst => snd x) ((a_id c, ns1, cs1) :: brs0) ++ [cse]) _ HCOLg); [|exact J1|exact E].
@@ -241,14 +250,15 @@ Proof.
       inversion HS; subst D1. apply andb_true_iff in Hc as [_ H1]. apply nested_true in H1.
       head_opt H a0 a1 E.
       destruct (tr_block ml f false (S ld) (child_of s (globals s)) body) as [[nsb cs]|] eqn:Eb; [|discriminate].
-      destruct (IH _ false false false _ _ _ _ _ _ _ _ eq_refl eq_refl H1 (Dec_child D L s (globals s) HD) Eb) as (I1 & I2 & I3).
+      destruct (IH _ false false false _ _ _ _ _ _ _ _ (ml_S _ _ Hml) eq_refl eq_refl H1 (Dec_child D L s (globals s) HD) Eb) as (I1 & I2 & I3).
       cbn [trm fst snd child_of globals] in I1, I2. rewrite app_nil_r in I2.
       rewrite (Dec_new_names D L s cs HD I3) in E. rewrite filter_tmem_nil in E.
       cbn [dedup app filter map fold_left promo_decls] in E. rewrite map_rewrite_deep_nil in E.
       inversion E; subst a0 a1. clear E.
-      eapply (K _ _ [NWhile (a_id c) (trn body)] []);
+      rewrite (rt_S _ _ Hml) in I1.
+      eapply (K _ _ [NWhile (a_id c) (trn false body)] []);
         [|exact H|subst nsb; reflexivity|cbn [globals]; rewrite I2, app_nil_r; reflexivity|exact HD].
-      rewrite (trm_cons_other top lm D (PWhile c body) rest I), tr1_unfold. reflexivity.
+      rewrite (trm_cons_other (rt ml ld) top lm D (PWhile c body) rest I), tr1_unfold. reflexivity.
     + (* PFor *)
       cbn [g_step] in HS.
       match type of HS with (if ?cnd then _ else _) = _ => destruct cnd eqn:Hc; [|discriminate] end.
@@ -267,32 +277,43 @@ Proof.
       assert (HDb : Dec D (x :: L) base).
       { intro y. unfold base. cbn [declared]. rewrite tmem_app, (HD y). cbn [tmem].
         destruct (tmem y (map fst D)), (tmem y L), (text_eqb y x); reflexivity. }
-      destruct (IH _ false false false _ _ _ _ _ _ _ _ eq_refl eq_refl H8 HDb Eb) as (I1 & I2 & I3).
+      destruct (IH _ false false false _ _ _ _ _ _ _ _ (ml_S _ _ Hml) eq_refl eq_refl H8 HDb Eb) as (I1 & I2 & I3).
       cbn [trm fst snd] in I1, I2. rewrite app_nil_r in I2.
       rewrite (Dec_new_names D (x :: L) base cs HDb I3) in E. rewrite filter_tmem_nil in E.
       cbn [dedup app filter map fold_left promo_decls] in E. rewrite map_rewrite_deep_nil in E.
       inversion E; subst a0 a1. clear E.
-      eapply (K _ _ [NFor x (a_id cnt) (trn body)] []);
+      rewrite (rt_S _ _ Hml) in I1.
+      eapply (K _ _ [NFor x (a_id cnt) (trn false body)] []);
         [|exact H|subst nsb; reflexivity|cbn [globals]; rewrite I2, app_nil_r; reflexivity|exact HD].
-      rewrite (trm_cons_other top lm D (PFor x cnt body) rest I), tr1_unfold. reflexivity.
+      rewrite (trm_cons_other (rt ml ld) top lm D (PFor x cnt body) rest I), tr1_unfold. reflexivity.
     + (* PBreak *)
       cbn [g_step] in HS. inversion HS; subst D1.
-      assert (HT : trm top lm D (PBreak :: rest) = ([NBreak] ++ fst (trm top lm D rest), [] ++ snd (trm top lm D rest))).
-      { rewrite (trm_cons_other top lm D PBreak rest I), tr1_unfold. reflexivity. }
+      assert (HT : trm (rt ml ld) top lm D (PBreak :: rest) = ([NBreak] ++ fst (trm (rt ml ld) top lm D rest), [] ++ snd (trm (rt ml ld) top lm D rest))).
+      { rewrite (trm_cons_other (rt ml ld) top lm D PBreak rest I), tr1_unfold. reflexivity. }
       destruct ld as [|[|ld']]; [discriminate| |].
       * destruct ml; [discriminate|].
         eapply (K _ _ _ _ HT); [exact H|reflexivity|cbn; rewrite app_nil_r; reflexivity|exact HD].
       * eapply (K _ _ _ _ HT); [exact H|reflexivity|cbn; rewrite app_nil_r; reflexivity|exact HD].
+    + (* PContinue *)
+      cbn [g_step] in HS. inversion HS; subst D1.
+      assert (HT : trm (rt ml ld) top lm D (PContinue :: rest) =
+                   ((if rt ml ld then [NReturn] else [NContinue]) ++ fst (trm (rt ml ld) top lm D rest), [] ++ snd (trm (rt ml ld) top lm D rest))).
+      { rewrite (trm_cons_other (rt ml ld) top lm D PContinue rest I), tr1_unfold. reflexivity. }
+      unfold rt in HT at 2.
+      destruct ld as [|[|ld']]; [discriminate| |].
+      * destruct ml; cbn [andb Nat.eqb] in HT;
+          (eapply (K _ _ _ _ HT); [exact H|reflexivity|cbn; rewrite app_nil_r; reflexivity|exact HD]).
+      * rewrite andb_false_r in HT. eapply (K _ _ _ _ HT); [exact H|reflexivity|cbn; rewrite app_nil_r; reflexivity|exact HD].
     + cbn [g_step] in HS. destruct (fv_ok D L e); [|discriminate]. inversion HS; subst D1.
       eapply (K _ _ [NWrite (a_id e)] []); [|exact H|reflexivity|cbn; rewrite app_nil_r; reflexivity|exact HD].
-      rewrite (trm_cons_other top lm D (PWrite e) rest I), tr1_unfold. reflexivity.
+      rewrite (trm_cons_other (rt ml ld) top lm D (PWrite e) rest I), tr1_unfold. reflexivity.
     + cbn [g_step] in HS. destruct (fv_ok D L e); [|discriminate]. inversion HS; subst D1.
       eapply (K _ _ [NSleep (a_id e)] []); [|exact H|reflexivity|cbn; rewrite app_nil_r; reflexivity|exact HD].
-      rewrite (trm_cons_other top lm D (PSleep e) rest I), tr1_unfold. reflexivity.
+      rewrite (trm_cons_other (rt ml ld) top lm D (PSleep e) rest I), tr1_unfold. reflexivity.
     + cbn [g_step] in HS. destruct (fv_ok D L e); [|discriminate]. inversion HS; subst D1.
-      assert (HT : trm top lm D (PExprS e :: rest) =
-                   ((if closed_const e then [] else [NExprS (a_id e)]) ++ fst (trm top lm D rest), [] ++ snd (trm top lm D rest))).
-      { rewrite (trm_cons_other top lm D (PExprS e) rest I), tr1_unfold. reflexivity. }
+      assert (HT : trm (rt ml ld) top lm D (PExprS e :: rest) =
+                   ((if closed_const e then [] else [NExprS (a_id e)]) ++ fst (trm (rt ml ld) top lm D rest), [] ++ snd (trm (rt ml ld) top lm D rest))).
+      { rewrite (trm_cons_other (rt ml ld) top lm D (PExprS e) rest I), tr1_unfold. reflexivity. }
       destruct (closed_const e);
         (eapply (K _ _ _ _ HT); [exact H|reflexivity|cbn; rewrite app_nil_r; reflexivity|exact HD]).
 Qed.
